@@ -45,6 +45,14 @@ Theorem example_preserves_existing files fin (h : list op) (s0 : fs) (p : path) 
 Proof. exact (example_preserves_existing_l files fin h s0 p e). Qed.
 Print Assumptions example_preserves_existing.
 
+(* "exists" means exists: a file the user emptied (or an empty placeholder created before the
+   first run) is an existing file like any other — zero length is not "missing" *)
+Theorem example_preserves_empty_file files fin (h : list op) (s0 : fs) (p : path) (t : nat) :
+  all_example_files_skip files ->
+  run files fin h s0 p = Some ([], t) -> run files fin (h ++ [Run Example]) s0 p = Some ([], t).
+Proof. exact (example_preserves_existing_l files fin h s0 p ([], t)). Qed.
+Print Assumptions example_preserves_empty_file.
+
 (* in particular a user's edit survives any number of example runs *)
 Theorem edit_survives_examples files fin (h : list op) (s0 : fs) (p : path) (b : content) (n : nat) :
   all_example_files_skip files ->
